@@ -200,8 +200,20 @@ def check_c12(out, tier):
     for i in range(30 * k):
         c = gen.fan_case(rnd, "c12f%d" % i)
         pairs = [(a, b) for a in range(len(grid)) for b in range(a, len(grid))]
-        for (a, b) in rnd.sample(pairs, 3 if tier == "quick" else 8):
+        # (threshold 0 against the thresholds at which leaves empty, then random pairs)
+        for (a, b) in [(0, 3), (0, 5), (0, 7)] + rnd.sample(pairs, 3 if tier == "quick" else 8):
             items.append({"id": "%s.%d.%d" % (c["id"], a, b), "rel": "thr", "a": with_cfg(c, thr=grid[a]), "b": with_cfg(c, thr=grid[b])})
+    # one Shaper asked for several thresholds in any order (the profile is computed once and kept): what it answers for t1 and t2
+    # is related in the same way, whatever was asked before - in particular a threshold that emptied a shape
+    for i in range(40 * k):
+        c = gen.fan_case(rnd, "c12h%d" % i) if i % 2 == 0 else rnd.choice([gen.chain_case, gen.or_fan_case])(rnd, "c12h%d" % i)
+        for j in range(2 if tier == "quick" else 6):
+            a, b = sorted(rnd.sample(range(len(grid)), 2))
+            hist_a = [rnd.choice(grid[b:]) for _ in range(rnd.randint(1, 2))]      # higher thresholds first, then t1
+            hist_b = [rnd.choice(grid) for _ in range(rnd.randint(0, 1))]
+            ca, cb = with_cfg(c, thr=grid[a]), with_cfg(c, thr=grid[b])
+            ca["before"], cb["before"] = hist_a, hist_b
+            items.append({"id": "%s.%d.%d.%d" % (c["id"], a, b, j), "rel": "thr", "how": "same Shaper, after %s / %s" % (hist_a, hist_b), "a": ca, "b": cb})
     campaign(out, "C12", items, mine)
     pinned_campaigns(out, "C12", mine)
     # the two end points are absolute statements: threshold 0 omits nothing observed, threshold 1 keeps only universal features
@@ -244,6 +256,13 @@ def check_c13(out, tier):
         items.append({"id": c["id"] + "e", "rel": "noexact", "a": with_cfg(c, disableExact=False), "b": with_cfg(c, disableExact=True)})
         items.append({"id": c["id"] + "d", "rel": "or", "a": with_cfg(c, disableOr=True, redundantOr=False),
                       "b": with_cfg(c, disableOr=False, redundantOr=rnd.random() < .5)})
+    # shapes whose only constraint is the one to rewrite (shape-map shapes over untyped one-property nodes)
+    for i in range(30 * k):
+        c = gen.single_constraint_case(rnd, "c13s%d" % i)
+        items.append({"id": c["id"] + "p", "rel": "present", "how": "comments", "a": c, "b": with_cfg(c, comments=False)})
+        items.append({"id": c["id"] + "x", "rel": "relax", "a": with_cfg(c, allCompliant=False), "b": with_cfg(c, allCompliant=True)})
+        items.append({"id": c["id"] + "o", "rel": "noopt", "a": with_cfg(c, allCompliant=True, allowOpt=True), "b": with_cfg(c, allCompliant=True, allowOpt=False)})
+        items.append({"id": c["id"] + "e", "rel": "noexact", "a": with_cfg(c, disableExact=False), "b": with_cfg(c, disableExact=True)})
     # output file vs returned string, also for outputs that cross the serializer's 5 000-line flush boundary
     for j, c in enumerate(base_cases(rnd, 12 * k, "c13f", ors=False)):
         items.append({"id": c["id"], "rel": "present", "how": "file", "a": c, "b": with_cfg(c, sink="file")})
@@ -319,6 +338,12 @@ def check_c14(out, tier):
                     sm.append({"label": M.EX + "shapes/L%d" % rnd.randint(0, 1), "labelSpelling": "bracket", "spelling": "bracket",
                                "kind": "node", "node": list(x)})
                 c = with_cfg(c, mode="shapemap", items=sm, targets=[])
+        elif rnd.random() < .35:
+            # a requested class without instances keeps an empty shape (remove_empty_shapes off) that reports 0 instances - with
+            # inverse paths as without
+            cl = gen.classes_of(T)
+            c = with_cfg(c, mode="classes", targets=rnd.sample(cl, rnd.randint(0, len(cl))) + [M.EX + "Absent"], removeEmpty=False,
+                         report=rnd.choice(["mixed", "abs"]), comments=True)
         items.append({"id": c["id"], "rel": "inverse", "a": with_cfg(c, inverse=True), "b": with_cfg(c, inverse=False),
                       "c": with_cfg(with_graph(c, R), inverse=False)})
     # incoming links of one property from subjects of several classes with very different frequencies, thresholds between them
@@ -378,7 +403,8 @@ def check_c16(out, tier):
                     extra.append((x, alike + "code", M.lit("d")))
             c = with_graph(c, T0 + extra)
             nss = [odd] + (nss if rnd.random() < .5 else [])
-        ci = with_cfg(c, ignoreNs=nss)
+        # (the option belongs to the Shaper, not to a reader: the graph may come as an rdflib Graph or a Turtle / RDF-XML text too)
+        ci = pipeline.via_channel(rnd, with_cfg(c, ignoreNs=nss), M.from_json_graph(c["graph"]), p=.4)
         ign.append(ci)
         if M.RDF not in nss:
             T = [t for t in M.from_json_graph(c["graph"]) if not any(
